@@ -3,6 +3,7 @@ package checks
 import (
 	"crypto/sha256"
 	"crypto/sha512"
+	"encoding/json"
 	"fmt"
 	"strings"
 
@@ -94,6 +95,52 @@ func runC06(r *fw.Runner) {
 			c.Sig("unsupported-sweep", sh)
 		})
 	}
+	// models of Go type string are JSON strings, whatever their text looks like; wide flat models hash like any other
+	r.Case("string-models-and-wide-models", func(c *fw.Case) {
+		for _, text := range []string{`{"b":1,"a":2}`, `[1,2,3]`, `"quoted"`, "plain text", "", `{"a":1}`, "123", "true", "null", ` {"a":1} `} {
+			for _, code := range []uint{18, 19} {
+				c.Count("string-models", 1)
+				c.Evals(1)
+				c.Sig("string-model", len(text))
+				got, err := hashing.CalculateModelMultihash(text, code)
+				if err != nil {
+					continue // a top-level string may be refused; it must not be taken for something else
+				}
+				want, _ := oracle.ModelHash(uint64(code), text)
+				if got != want {
+					var asJSON interface{}
+					alt := ""
+					if json.Unmarshal([]byte(text), &asJSON) == nil {
+						alt, _ = oracle.ModelHash(uint64(code), asJSON)
+					}
+					c.Failf("string-model-hashed-as-something-else", map[string]interface{}{"model_go_string": text, "got": got, "hash_of_the_json_string": want, "hash_of_the_text_parsed_as_json": alt},
+						"the model hash of the Go string %q is not the hash of that JSON string (it equals the hash of the parsed text: %v)", text, got == alt)
+				}
+				if asErr := hashing.IsValidModelMultihash(text, want); asErr != nil {
+					c.Failf("string-model-not-valid-against-own-hash", map[string]interface{}{"model_go_string": text, "hash": want, "err": asErr.Error()}, "a Go string model hashes but does not validate against the hash of that JSON string")
+				}
+			}
+		}
+		for _, n := range []int{1200, 12000} {
+			var l []interface{}
+			for i := 0; i < n; i++ {
+				l = append(l, []interface{}{i, i + 1})
+			}
+			v := map[string]interface{}{"coordinates": l, "empty": []interface{}{map[string]interface{}{}, []interface{}{}}}
+			c.Count("wide-models", 1)
+			c.Evals(2)
+			c.Sig("wide-model", n)
+			want, _ := oracle.ModelHash(18, v)
+			got, err := hashing.CalculateModelMultihash(v, 18)
+			if err != nil || got != want {
+				c.Failf("wide-model", map[string]interface{}{"arrays": n, "err": fmt.Sprint(err), "got": got, "expected": want}, "a flat model with %d small arrays does not get its model hash (err=%v)", n, err)
+				continue
+			}
+			if verr := hashing.IsValidModelMultihash(oracle.MustJCS(v), want); verr != nil {
+				c.Failf("wide-model", map[string]interface{}{"arrays": n, "err": verr.Error()}, "a flat model with %d small arrays (as bytes) does not validate against its hash", n)
+			}
+		}
+	})
 	r.Case("unsupported-codes", func(c *fw.Case) {
 		v := map[string]interface{}{"a": 1}
 		for _, code := range unsupportedCodes {
